@@ -201,7 +201,7 @@ class Oracle:
             self.checked["sums"] += 1
 
 
-def drive(cfg, rng=None, mode=None, ops=None, max_tells=300, max_ops=160):
+def drive(cfg, rng=None, mode=None, ops=None, max_tells=300, max_ops=160, **kw):
     """Run the real learner with the oracle attached; returns (recorder, oracle)."""
     rec = I.Recorder(cfg)
     orc = Oracle(rec)
@@ -225,7 +225,7 @@ def drive(cfg, rng=None, mode=None, ops=None, max_tells=300, max_ops=160):
         if ops is not None:
             I.drive_concrete(rec, ops)
         else:
-            I.drive_schedule(rec, rng, mode, max_tells, max_ops)
+            I.drive_schedule(rec, rng, mode, max_tells, max_ops, **kw)
     return rec, orc
 
 
@@ -332,12 +332,12 @@ def run(chk: Check) -> int:
         rec, orc = drive(cfg, rng=rng, mode=mode, max_tells=max_tells, max_ops=max_ops)
         if rec.steps:
             add(cfg, rec, orc, f"seed{chk.seed}/{k}", mode)
-    # long sequential runs of divergent integrands reach DivergentIntegralError
-    for k in range(4 if chk.quick else 30):
+    # long runs of a divergent integrand (like the suite's fdiv) with few tasks reach DivergentIntegralError
+    for k in range(3 if chk.quick else 24):
         rng = chk.rng("div", k)
-        cfg = I.draw_config(rng, rng.choice(["divergent", "divergent_abs"]))
-        cfg["bounds"], cfg["params"][0], cfg["max_ivals"] = [0, 1], 0.0, 1000
-        rec, orc = drive(cfg, rng=rng, mode="runner" if k % 2 else "batch", max_tells=5000, max_ops=6000 if not chk.quick else 2500)
+        cfg = I.draw_config(rng, "divergent_pow")
+        cfg["bounds"], cfg["params"][0], cfg["max_ivals"] = [0, 1], rng.choice([0.0, 0.5]), 1000
+        rec, orc = drive(cfg, rng=rng, mode="runner", max_tells=1200, max_ops=1500, ntasks=1 + k % 3, foreign_rate=0)
         if rec.steps:
             add(cfg, rec, orc, f"seed{chk.seed}/div{k}", "long")
 
@@ -350,8 +350,19 @@ def run(chk: Check) -> int:
 
     check_fn = f"(check xi {C.bool_(repaired)})"
     legal_fn = f"(is_legal xi {C.bool_(repaired)})"
-    mism, legal, errors = chk.coq_cases("cases", preamble(), "case", cases, check_fn, legal_fn,
-                                        shard=max(1, (len(cases) + 15) // 16))
+    # balance the shards: biggest cases dealt round-robin over 16 shards (padded with empty cases)
+    nsh = 16
+    shard = max(1, (len(cases) + nsh - 1) // nsh)
+    dummy = C.tup(C.flt(0.0), C.flt(1.0), C.nat(1000), "[]")
+    order = sorted(range(len(cases)), key=lambda i: -len(cases[i]))
+    slots = [None] * (nsh * shard)
+    for r, i in enumerate(order):
+        slots[(r % nsh) * shard + r // nsh] = i
+    laid = [dummy if i is None else cases[i] for i in slots]
+    ndummy = sum(1 for i in slots if i is None)
+    mism, legal, errors = chk.coq_cases("cases", preamble(), "case", laid, check_fn, legal_fn, shard=shard)
+    mism = [(slots[c], st) for c, st in mism]
+    legal -= ndummy
     for e in errors:
         chk.broke("correspondence", "Model/Integrator.v cases could not be evaluated", e)
     for c, s in mism[:5]:
